@@ -243,13 +243,15 @@ def _hdf5_read_signal(rfilename, dtype, key, **kwargs):
             data = h5py_file[key]
         else:
             group_stack = [h5py_file]
+            visited = set()  # hard links may form cycles
             data = None
             while group_stack:
                 cur_group = group_stack.pop()
                 if isinstance(cur_group, h5py.Dataset):
                     data = cur_group
                     break
-                else:
+                elif cur_group.id not in visited:
+                    visited.add(cur_group.id)
                     keys = list(cur_group.keys())
                     keys.sort(reverse=True)
                     for name in keys:
